@@ -168,7 +168,7 @@ def tags_of(V, C):
 
 @st.composite
 def tets(draw, max_cells=60, parity=None):
-    base = draw(st.sampled_from(["single", "two", "ring_closed", "ring_open", "kuhn", "kuhn", "delaunay"]))
+    base = draw(st.sampled_from(["single", "two", "ring_closed", "ring_open", "kuhn", "kuhn", "delaunay"] * 2 + ["cavity"]))
     a = draw(st.integers(0, 5)); b = draw(st.integers(0, 5)); c = draw(st.integers(0, 5))
     if base == "single":
         V, C = single()
@@ -180,6 +180,12 @@ def tets(draw, max_cells=60, parity=None):
         V, C = around_edge(1 + a % 5, False)
     elif base == "kuhn":
         V, C = kuhn(1 + a % 2, 1 + b % 2, 1 + c % 2)
+    elif base == "cavity":
+        # a 3 x 3 x 3 block of cubes whose centre cube is missing: the boundary has a second component (the cavity wall) that
+        # encloses a negative volume when oriented away from the material
+        V, C = kuhn(3, 3, 3)
+        k0 = ((1 * 3 + 1) * 3 + 1) * 6
+        C = C[:k0] + C[k0 + 6:]
     else:
         from scipy.spatial import Delaunay
         n = 5 + a + b
